@@ -76,7 +76,14 @@ fn main() {
             }
         };
         let check = v["check"].as_str().unwrap_or("").to_string();
-        match props::replay(&ctx, &check, &v["case"]) {
+        // a case is replayed with the log facade off and, if it passes, once more with its maximum level at Trace
+        let mut outcome = props::replay(&ctx, &check, &v["case"]);
+        if let Some(Ok(())) = outcome {
+            log::set_max_level(log::LevelFilter::Trace);
+            outcome = props::replay(&ctx, &check, &v["case"]);
+            log::set_max_level(log::LevelFilter::Off);
+        }
+        match outcome {
             None => {
                 eprintln!("INCONCLUSIVE: unknown property/check {} {}", prop, check);
                 std::process::exit(2);
